@@ -54,6 +54,14 @@ class C06(Prop):
         for _ in range(n // 3):
             out.append({'mode': 'wire', 'kind': rng.choice(sources.KINDS), 'count': rng.choice([0, 1, 3, 6]), 'flagged': False, 'failing': False,
                         'channel': rng.random() < 0.4, 'n0': rng.choice([1, 2, 3, 2 ** 31 - 1]), 'more': [rng.choice([1, 2, 5, 2 ** 31 - 1, 2 ** 31 - 2]) for _ in range(rng.randint(0, 3))]})
+        # channels whose requester direction is alive too: its elements and its end (bare COMPLETE, last element carrying COMPLETE, ERROR) arrive
+        # between the grants; the credit of the responder's direction is not affected by any of it
+        for _ in range(n // 3):
+            more = [rng.choice([1, 2, 5]) for _ in range(rng.randint(1, 4))]
+            up = [rng.choice(['', '', 'n', 'nn']) for _ in range(len(more) + 1)]
+            up[rng.randrange(len(up))] += rng.choice(['N', 'N', 'c', 'e', ''])      # N = NEXT+COMPLETE in one frame, c = bare COMPLETE, e = ERROR
+            out.append({'mode': 'wire', 'kind': rng.choice(sources.KINDS), 'count': rng.choice([3, 6, 10]), 'flagged': False, 'failing': False,
+                        'channel': True, 'n0': rng.choice([1, 2, 3]), 'more': more, 'up': up})
         # the library's own awaitable requester (CollectorSubscriber behind AwaitableRSocket): the credit it grants
         for _ in range(n // 3):
             k = rng.choice([0, 1, 2, 3, 4, 6, 9])
@@ -257,24 +265,48 @@ class C06(Prop):
                 return src
 
             async def request_channel(self, payload):
+                if case.get('up'):
+                    from reactivestreams.subscriber import DefaultSubscriber
+
+                    class Up(DefaultSubscriber):
+                        def on_subscribe(self, subscription):
+                            subscription.request(100)
+                    return src, Up()
                 return src, None
         t = simnet.ScriptedTransport(loop)
         server = RSocketServer(t, handler_factory=H)
         await loop.settle()
-        t.deliver(engine.build_frame({'ty': 'REQUEST_CHANNEL' if case['channel'] else 'REQUEST_STREAM', 'sid': 1, 'n': case['n0'], 'data': [9], 'complete': True}).serialize())
+        t.deliver(engine.build_frame({'ty': 'REQUEST_CHANNEL' if case['channel'] else 'REQUEST_STREAM', 'sid': 1, 'n': case['n0'], 'data': [9], 'complete': not case.get('up')}).serialize())
         credit = case['n0']
         trace = []
+
+        def upstream(codes):
+            for ch in codes:
+                if ch == 'n':
+                    t.deliver(engine.build_frame({'ty': 'PAYLOAD', 'sid': 1, 'data': [7], 'next': True}).serialize())
+                elif ch == 'N':
+                    t.deliver(engine.build_frame({'ty': 'PAYLOAD', 'sid': 1, 'data': [8], 'next': True, 'complete': True}).serialize())
+                elif ch == 'c':
+                    t.deliver(engine.build_frame({'ty': 'PAYLOAD', 'sid': 1, 'complete': True}).serialize())
+                elif ch == 'e':
+                    t.deliver(engine.build_frame({'ty': 'ERROR', 'sid': 1, 'code': 0x201, 'data': [1]}).serialize())
+        if case.get('up'):
+            await loop.settle()
+            upstream(case['up'][0])
 
         def payloads():
             return len([e for e in t.sent if isinstance(e[2], F.PayloadFrame) and (e[2].data or e[2].metadata)])
         await loop.settle()
         trace.append([credit, payloads()])
-        for n in case['more']:
+        for i, n in enumerate(case['more']):
             t.deliver(engine.build_frame({'ty': 'REQUEST_N', 'sid': 1, 'n': n}).serialize())
             credit += n
             if not case.get('together'):
                 await loop.settle()
                 trace.append([credit, payloads()])
+            if case.get('up'):
+                upstream(case['up'][i + 1])
+                await loop.settle()
         if case.get('together'):
             await loop.settle()
             trace.append([credit, payloads()])
